@@ -543,7 +543,15 @@ def r_flipshape(f):
                 names_ = [fn["name"] for y in [x] + x.closures() for _, _, fn in y.calls() if fn]
                 if len(sp) == 1:
                     m_ = strip(dx_.expr(sp[0]["args"][1]))
-                    half = m_[0] == "bin" and ((m_[1] == "Div" and const_usize(strip(m_[3])) == 2) or (m_[1] == "Shr" and const_usize(strip(m_[3])) == 1)) and strip(m_[2])[0] == "call" and strip(m_[2])[2] in ("len", "num_cols")
+                    def _is_len(e_):
+                        e_ = strip(e_)
+                        return (e_[0] == "call" and e_[2] in ("len", "num_cols")) or e_[0] in ("len", "ptrmeta") or (e_[0] == "un" and e_[1] == "PtrMetadata")
+
+                    def _is_half(e_):
+                        e_ = strip(e_)
+                        return e_[0] == "bin" and ((e_[1] == "Div" and const_usize(strip(e_[3])) == 2) or (e_[1] == "Shr" and const_usize(strip(e_[3])) == 1)) and _is_len(e_[2])
+                    # split at len / 2, or at len - len / 2 (the front half keeps the middle cell of an odd row; zip stops at the shorter)
+                    half = _is_half(m_) or (m_[0] == "bin" and m_[1].startswith("Sub") and _is_len(m_[2]) and _is_half(m_[3]))
                     swp = any(fn and fn["path"] in ("core::mem::swap", "core::ptr::swap") for y in bodies for _, _, fn in y.calls())
                     if half and names_.count("rev") == 1 and "zip" in names_ and swp:
                         ok = True
@@ -620,6 +628,17 @@ def r_conv(f):
                 a2 = strip(dd.expr(cs2[1][0]["args"][0]))
                 if a2[0] == "call" and a2[2] == "from" and strip(a2[3][0]) == ("param", vp):
                     b, vp = hb2, 1
+                    # .. which may itself only forward to a helper
+                    for _ in range(2):
+                        cs = [(t, fn) for _, t, fn in b.calls() if fn]
+                        if len(cs) == 1 and not b.has_loop():
+                            hb = f.crate_fn_for_call(cs[0][1])
+                            dd = Dfx(b)
+                            pos = [i for i, a in enumerate(cs[0][0]["args"]) if any(x == ("param", vp) for x in walk(strip(dd.expr(a))))]
+                            if hb is not None and hb.kind != "Closure" and len(pos) == 1 and cs[0][0]["dest"]["local"] == 0 and not cs[0][0]["dest"]["proj"]:
+                                b, vp = hb, pos[0] + 1
+                                continue
+                        break
         d = Dfx(b)
         clos = [c for c in f.fn_bodies if c.kind == "Closure" and c.d.get("root") == b.id]
         steps = cursor_steps(b, "Rows")
